@@ -6,6 +6,10 @@ NOTE = ('Assumes: clang-14 -O1 IR of the kernel TU faithfully compiles the /repo
         'against a g++ ASan/UBSan build of the same harness); allocation never fails; exception handlers/cleanups not explored; environment models and bounds '
         'are listed per harness in the evidence file. Trusted: clang, z3, engine/irsym.py, the reference models written in the harnesses.')
 CLAIMED = {
+ 'C01': ('bounded symbolic model checking of the registry of total functions: every harness runs the real function on fully symbolic arguments with clang UBSan checks as traps, libstdc++ assertions, '
+         'executor-level bounds/lifetime/leak checks, code-derived loop bounds and an empty exception whitelist; registry = all C06 arithmetic/cast kernels (full range), narrow instantiations, '
+         'at_optional/maybe_front/maybe_back/pop_back/pop_front/find_opt, grid::at_optional (any 64-bit position), array::from_range, runtime_index, enum from_string, options is_flag/next_arg on '
+         'exactly-sized symbolic strings; filesystem/iostream/RTTI functions are outside (not executable)', '3 C01'),
  'C06': ('bounded symbolic model checking over the FULL range of every argument (bit-vector variables of the real width, no sampling): truncation_check for all 64 (dest,source) pairs of the 8 integer types, '
          'from_int for 9 enums x 4 value types, ceil_div, ceil_div_signed (full i32/i64 range and the multiplication characterisation on [-1024,1023]^2), div, mod, clamp, diff, is_power_of_2, '
          'next_power_of_2, log2, power_of_2, shifted_mask/test, interval_distance against 64/128-bit references; loops unwound to width+6 with the bound checked', '3 C06'),
